@@ -116,9 +116,16 @@ def pStmt : P (Stmt × Args) := fun cs =>
   | some (s, r) => (pArgs r).map fun (a, r') => ((s, a), r')
 
 def parseStmt (tok : String) : Option (Stmt × Args) :=
-  match pStmt tok.toList with
-  | some (x, []) => some x
-  | _ => none
+  -- a leading `!` marks a statement the database is made to fail
+  match tok.toList with
+  | '!' :: rest =>
+    (match pStmt rest with
+     | some ((s, a), []) => some (.failing s, a)
+     | _ => none)
+  | cs =>
+    match pStmt cs with
+    | some (x, []) => some x
+    | _ => none
 
 def parseRow (tok : String) : Option Row :=
   -- r:<val><val>…
